@@ -6,6 +6,7 @@
 import Flumine.Dispatch
 import Flumine.Mw
 import Flumine.Lemmas.OrderLemmas
+import Flumine.Props.C03
 namespace Flumine.C13
 open Flumine Flumine.Dispatch
 
@@ -227,6 +228,356 @@ theorem matchOrders_keeps_analytics (w : World) (mid mid' : Nat) (sorted : List 
 theorem matchOrders_starts_from_analytics (w : World) (mid : Nat) (sorted : List Order) (recheck : Bool) :
     w.matchOrders mid sorted recheck =
       (sorted.foldl (matchStep mid recheck) (w, (w.market! mid).analytics.map fun a => (a.sel, a.hc, a.traded))).1 := rfl
+
+
+/-! ### isolation of the matching step: what another strategy's orders do cannot be seen -/
+
+/-- two worlds that look the same from the orders in S: those orders, the market table and the clients -/
+structure Agree (S : Nat → Prop) (w1 w2 : World) : Prop where
+  orders : ∀ id, S id → w1.order! id = w2.order! id
+  has1 : ∀ id, S id → HasOrder w1 id
+  has2 : ∀ id, S id → HasOrder w2 id
+  markets : w1.markets = w2.markets
+  clients : w1.clients = w2.clients
+  clock : w1.clock = w2.clock
+
+theorem orderExecutionComplete_clients (w : World) (oid : Nat) : (w.orderExecutionComplete oid).clients = w.clients := by
+  unfold orderExecutionComplete orderUpdateStatus modifyOrder
+  simp only
+  split
+  · unfold completeTrade ctxReset setCtx setTrade setOrder; simp only; split <;> rfl
+  · rfl
+
+theorem orderExecutionComplete_clock (w : World) (oid : Nat) : (w.orderExecutionComplete oid).clock = w.clock := by
+  unfold orderExecutionComplete orderUpdateStatus modifyOrder
+  simp only
+  split
+  · unfold completeTrade ctxReset setCtx setTrade setOrder; simp only; split <;> rfl
+  · rfl
+
+theorem orderExecutionComplete_other (w : World) (a id : Nat) (ha : HasOrder w a) (hne : id ≠ a) :
+    (w.orderExecutionComplete a).order! id = w.order! id := by
+  unfold orderExecutionComplete
+  rw [order!_modify_other _ id a _ hne (by intro x hx; exact hx), orderUpdateStatus_other w id a .executionComplete ha hne]
+
+theorem hasOrder_orderExecutionComplete (w : World) (a id : Nat) (h : HasOrder w id) : HasOrder (w.orderExecutionComplete a) id := by
+  unfold orderExecutionComplete
+  exact hasOrder_modify _ id a _ (hasOrder_orderUpdateStatus w id a .executionComplete h) (by intro x hx; exact hx)
+
+theorem market!_congr (w1 w2 : World) (h : w1.markets = w2.markets) (mid : Nat) : w1.market! mid = w2.market! mid := by
+  unfold market! market?; rw [h]
+
+theorem client!_congr (w1 w2 : World) (h : w1.clients = w2.clients) (cid : Nat) : w1.client! cid = w2.client! cid := by
+  unfold client! client?; rw [h]
+
+/-- one order of the matching loop, run in two worlds that agree on S: same private traded copy
+    afterwards, and the worlds still agree on S -/
+theorem matchStep_agree (S : Nat → Prop) (mid : Nat) (recheck : Bool) (w1 w2 : World) (lk : List (Nat × Rat × List (Rat × Rat)))
+    (o0 : Order) (h : Agree S w1 w2) (hs : S o0.id) :
+    Agree S (matchStep mid recheck (w1, lk) o0).1 (matchStep mid recheck (w2, lk) o0).1 ∧
+    (matchStep mid recheck (w1, lk) o0).2 = (matchStep mid recheck (w2, lk) o0).2 := by
+  have ho := h.orders o0.id hs
+  have h1 := h.has1 o0.id hs
+  have h2 := h.has2 o0.id hs
+  have hm := market!_congr w1 w2 h.markets mid
+  have hid1 : (w1.order! o0.id).id = o0.id := order!_id w1 o0.id h1
+  have hid2 : (w2.order! o0.id).id = o0.id := order!_id w2 o0.id h2
+  unfold matchStep
+  simp only
+  rw [← ho, ← hm, client!_congr w1 w2 h.clients]
+  by_cases hr : (recheck && !isMwLive (w1.order! o0.id)) = true
+  · rw [if_pos hr, if_pos hr]; exact ⟨h, rfl⟩
+  · rw [if_neg hr, if_neg hr]
+    simp only
+    generalize hcall : (w1.order! o0.id).sim.call ((w1.market! mid).book.getD {}).view
+      ((runnerOf ((w1.market! mid).book.getD {}) (w1.order! o0.id).sel (w1.order! o0.id).hc).bind (·.sp))
+      (((lk.find? fun e => e.1 = (w1.order! o0.id).sel ∧ e.2.1 = (w1.order! o0.id).hc).map (·.2.2)).getD [])
+      (w2.client! ((w1.order! o0.id).client.getD 0)).minBspLiability = r
+    refine ⟨?_, trivial⟩
+    rw [hid1]
+    -- after writing the simulated part back
+    have hmod1 := order!_modify_self w1 o0.id (fun x => { x with sim := r.1 }) h1 (by intro x hx; exact hx)
+    have hmod2 := order!_modify_self w2 o0.id (fun x => { x with sim := r.1 }) h2 (by intro x hx; exact hx)
+    have hh1 := hasOrder_modify w1 o0.id o0.id (fun x => { x with sim := r.1 }) h1 (by intro x hx; exact hx)
+    have hh2 := hasOrder_modify w2 o0.id o0.id (fun x => { x with sim := r.1 }) h2 (by intro x hx; exact hx)
+    have base : Agree S (w1.modifyOrder o0.id fun x => { x with sim := r.1 }) (w2.modifyOrder o0.id fun x => { x with sim := r.1 }) := by
+      refine ⟨?_, ?_, ?_, h.markets, h.clients, h.clock⟩
+      · intro id hsid
+        by_cases e : id = o0.id
+        · subst e; rw [hmod1, hmod2, ho]
+        · rw [order!_modify_other w1 id o0.id _ e (by intro x hx; exact hx), order!_modify_other w2 id o0.id _ e (by intro x hx; exact hx)]
+          exact h.orders id hsid
+      · intro id hsid; exact hasOrder_modify w1 id o0.id _ (h.has1 id hsid) (by intro x hx; exact hx)
+      · intro id hsid; exact hasOrder_modify w2 id o0.id _ (h.has2 id hsid) (by intro x hx; exact hx)
+    cases r.2.2 with
+    | false => exact base
+    | true =>
+      simp only [if_true]
+      generalize (w1.modifyOrder o0.id fun x => { x with sim := r.1 }) = v1 at base hh1
+      generalize (w2.modifyOrder o0.id fun x => { x with sim := r.1 }) = v2 at base hh2
+      refine ⟨?_, ?_, ?_, ?_, ?_, ?_⟩
+      · intro id hsid
+        by_cases e : id = o0.id
+        · rw [e, C03.executionComplete_self v1 o0.id hh1, C03.executionComplete_self v2 o0.id hh2, base.orders o0.id hs]
+          rw [base.clock]
+        · rw [orderExecutionComplete_other v1 o0.id id hh1 e, orderExecutionComplete_other v2 o0.id id hh2 e]
+          exact base.orders id hsid
+      · intro id hsid; exact hasOrder_orderExecutionComplete v1 o0.id id (base.has1 id hsid)
+      · intro id hsid; exact hasOrder_orderExecutionComplete v2 o0.id id (base.has2 id hsid)
+      · rw [orderExecutionComplete_markets, orderExecutionComplete_markets]; exact base.markets
+      · rw [orderExecutionComplete_clients, orderExecutionComplete_clients]; exact base.clients
+      · rw [orderExecutionComplete_clock, orderExecutionComplete_clock]; exact base.clock
+
+
+theorem fold_agree (S : Nat → Prop) (mid : Nat) (recheck : Bool) (l : List Order) (hl : ∀ o ∈ l, S o.id)
+    (w1 w2 : World) (lk : List (Nat × Rat × List (Rat × Rat))) (h : Agree S w1 w2) :
+    Agree S (l.foldl (matchStep mid recheck) (w1, lk)).1 (l.foldl (matchStep mid recheck) (w2, lk)).1 ∧
+    (l.foldl (matchStep mid recheck) (w1, lk)).2 = (l.foldl (matchStep mid recheck) (w2, lk)).2 := by
+  induction l generalizing w1 w2 lk with
+  | nil => exact ⟨h, rfl⟩
+  | cons o os ih =>
+    rw [List.foldl_cons, List.foldl_cons]
+    obtain ⟨ha, hk⟩ := matchStep_agree S mid recheck w1 w2 lk o h (hl o List.mem_cons_self)
+    have e1 : matchStep mid recheck (w1, lk) o = ((matchStep mid recheck (w1, lk) o).1, (matchStep mid recheck (w1, lk) o).2) := rfl
+    have e2 : matchStep mid recheck (w2, lk) o = ((matchStep mid recheck (w2, lk) o).1, (matchStep mid recheck (w1, lk) o).2) := by
+      rw [hk]
+    rw [e1, e2]
+    exact ih (fun x hx => hl x (List.mem_cons_of_mem _ hx)) _ _ _ ha
+
+/-- matching the same orders in two worlds that agree on them gives worlds that still agree on them -/
+theorem matchOrders_agree (S : Nat → Prop) (mid : Nat) (recheck : Bool) (l : List Order) (hl : ∀ o ∈ l, S o.id)
+    (w1 w2 : World) (h : Agree S w1 w2) : Agree S (w1.matchOrders mid l recheck) (w2.matchOrders mid l recheck) := by
+  unfold matchOrders
+  simp only
+  rw [market!_congr w1 w2 h.markets mid]
+  exact (fold_agree S mid recheck l hl w1 w2 _ h).1
+
+/-! #### what matching a list of orders leaves alone -/
+
+theorem matchStep_frame (mid : Nat) (recheck : Bool) (w : World) (lk : List (Nat × Rat × List (Rat × Rat))) (o0 : Order)
+    (h0 : HasOrder w o0.id) :
+    (∀ id, id ≠ o0.id → (matchStep mid recheck (w, lk) o0).1.order! id = w.order! id) ∧
+    (∀ id, HasOrder w id → HasOrder (matchStep mid recheck (w, lk) o0).1 id) ∧
+    (matchStep mid recheck (w, lk) o0).1.clients = w.clients ∧ (matchStep mid recheck (w, lk) o0).1.clock = w.clock := by
+  have hid : (w.order! o0.id).id = o0.id := order!_id w o0.id h0
+  unfold matchStep
+  simp only
+  split
+  · exact ⟨fun _ _ => rfl, fun _ h => h, rfl, rfl⟩
+  · rw [hid]
+    split
+    · refine ⟨?_, ?_, ?_, ?_⟩
+      · intro id hne
+        rw [orderExecutionComplete_other _ o0.id id (hasOrder_modify w o0.id o0.id _ h0 (by intro x hx; exact hx)) hne]
+        exact order!_modify_other w id o0.id _ hne (by intro x hx; exact hx)
+      · intro id hh
+        exact hasOrder_orderExecutionComplete _ o0.id id (hasOrder_modify w id o0.id _ hh (by intro x hx; exact hx))
+      · rw [orderExecutionComplete_clients]; rfl
+      · rw [orderExecutionComplete_clock]; rfl
+    · refine ⟨?_, ?_, rfl, rfl⟩
+      · intro id hne; exact order!_modify_other w id o0.id _ hne (by intro x hx; exact hx)
+      · intro id hh; exact hasOrder_modify w id o0.id _ hh (by intro x hx; exact hx)
+
+theorem fold_frame (mid : Nat) (recheck : Bool) (l : List Order) (w : World) (lk : List (Nat × Rat × List (Rat × Rat)))
+    (hl : ∀ o ∈ l, HasOrder w o.id) :
+    (∀ id, (∀ o ∈ l, o.id ≠ id) → (l.foldl (matchStep mid recheck) (w, lk)).1.order! id = w.order! id) ∧
+    (∀ id, HasOrder w id → HasOrder (l.foldl (matchStep mid recheck) (w, lk)).1 id) ∧
+    (l.foldl (matchStep mid recheck) (w, lk)).1.clients = w.clients ∧ (l.foldl (matchStep mid recheck) (w, lk)).1.clock = w.clock := by
+  induction l generalizing w lk with
+  | nil => exact ⟨fun _ _ => rfl, fun _ h => h, rfl, rfl⟩
+  | cons o os ih =>
+    rw [List.foldl_cons]
+    obtain ⟨f1, f2, f3, f4⟩ := matchStep_frame mid recheck w lk o (hl o List.mem_cons_self)
+    have e1 : matchStep mid recheck (w, lk) o = ((matchStep mid recheck (w, lk) o).1, (matchStep mid recheck (w, lk) o).2) := rfl
+    rw [e1]
+    obtain ⟨g1, g2, g3, g4⟩ := ih (matchStep mid recheck (w, lk) o).1 (matchStep mid recheck (w, lk) o).2
+      (fun x hx => f2 x.id (hl x (List.mem_cons_of_mem _ hx)))
+    refine ⟨?_, ?_, ?_, ?_⟩
+    · intro id hne
+      rw [g1 id (fun x hx => hne x (List.mem_cons_of_mem _ hx))]
+      exact f1 id (fun e => hne o List.mem_cons_self e.symm)
+    · intro id hh; exact g2 id (f2 id hh)
+    · rw [g3, f3]
+    · rw [g4, f4]
+
+/-- C13 (isolation of the matching step): whatever orders of OTHER strategies were matched first - any
+    number, any fills, any completions - the orders of strategy A end up exactly as if the others had
+    not been there: every strategy is matched against the same traded volume and book -/
+theorem isolation_of_matching (S : Nat → Prop) (mid : Nat) (recheck : Bool) (LA LB : List Order) (w : World)
+    (hA : ∀ o ∈ LA, S o.id) (hB : ∀ o ∈ LB, ¬ S o.id)
+    (hasA : ∀ id, S id → HasOrder w id) (hasB : ∀ o ∈ LB, HasOrder w o.id) :
+    ∀ id, S id → ((w.matchOrders mid LB recheck).matchOrders mid LA recheck).order! id = (w.matchOrders mid LA recheck).order! id := by
+  have hag : Agree S (w.matchOrders mid LB recheck) w := by
+    obtain ⟨g1, g2, g3, g4⟩ := fold_frame mid recheck LB w ((w.market! mid).analytics.map fun a => (a.sel, a.hc, a.traded)) hasB
+    refine ⟨?_, ?_, hasA, matchOrders_keeps_markets w mid LB recheck, ?_, ?_⟩
+    · intro id hs
+      exact g1 id (fun o ho e => hB o ho (e ▸ hs))
+    · intro id hs; exact g2 id (hasA id hs)
+    · exact g3
+    · exact g4
+  intro id hs
+  exact (matchOrders_agree S mid recheck LA hA _ _ hag).orders id hs
+
+
+/-! #### from the matching step to the per-strategy loop: registration order does not matter -/
+
+theorem mem_insertBy (key : Order → Rat) (o x : Order) (l : List Order) (h : x ∈ insertBy key o l) : x = o ∨ x ∈ l := by
+  induction l with
+  | nil => simp only [insertBy, List.mem_singleton] at h; exact Or.inl h
+  | cons y ys ih =>
+    unfold insertBy at h
+    split at h
+    · rcases List.mem_cons.mp h with e | e
+      · exact Or.inl e
+      · exact Or.inr e
+    · rcases List.mem_cons.mp h with e | e
+      · exact Or.inr (by rw [e]; exact List.mem_cons_self)
+      · rcases ih e with e' | e'
+        · exact Or.inl e'
+        · exact Or.inr (List.mem_cons_of_mem _ e')
+
+theorem mem_foldl_insertBy (key : Order → Rat) (l acc : List Order) (x : Order)
+    (h : x ∈ l.foldl (fun acc o => insertBy key o acc) acc) : x ∈ acc ∨ x ∈ l := by
+  induction l generalizing acc with
+  | nil => exact Or.inl h
+  | cons y ys ih =>
+    rw [List.foldl_cons] at h
+    rcases ih (insertBy key y acc) h with e | e
+    · rcases mem_insertBy key y x acc e with e' | e'
+      · exact Or.inr (by rw [e']; exact List.mem_cons_self)
+      · exact Or.inl e'
+    · exact Or.inr (List.mem_cons_of_mem _ e)
+
+theorem mem_stableSortBy (key : Order → Rat) (l : List Order) (x : Order) (h : x ∈ stableSortBy key l) : x ∈ l := by
+  unfold stableSortBy at h
+  rcases mem_foldl_insertBy key l [] x h with e | e
+  · cases e
+  · exact e
+
+theorem mem_sortOrders (l : List Order) (x : Order) (h : x ∈ sortOrders l) : x ∈ l := by
+  unfold sortOrders at h
+  simp only [List.mem_append] at h
+  rcases h with (h | h) | h
+  · exact (List.mem_filter.mp (mem_stableSortBy _ _ x h)).1
+  · exact (List.mem_filter.mp (mem_stableSortBy _ _ x h)).1
+  · exact (List.mem_filter.mp h).1
+
+/-- the orders strategy `sid` has live in the market carry ids of the blotter, the strategy's tag, and are present -/
+theorem strategyLive_spec (w : World) (mid sid : Nat) (x : Order) (h : x ∈ w.strategyLive mid sid) :
+    ∃ oid ∈ (w.market! mid).blotter, x = w.order! oid ∧ x.strategy = sid := by
+  unfold strategyLive at h
+  obtain ⟨hm, hp⟩ := List.mem_filter.mp h
+  obtain ⟨oid, ho, rfl⟩ := List.mem_map.mp hm
+  simp only [decide_eq_true_eq] at hp
+  exact ⟨oid, ho, rfl, hp.1⟩
+
+/-- the strategy tag of every order survives the matching loop -/
+theorem matchStep_strategy (mid : Nat) (recheck : Bool) (w : World) (lk : List (Nat × Rat × List (Rat × Rat))) (o0 : Order)
+    (h0 : HasOrder w o0.id) (id : Nat) (hid : HasOrder w id) :
+    ((matchStep mid recheck (w, lk) o0).1.order! id).strategy = (w.order! id).strategy := by
+  by_cases e : id = o0.id
+  · subst e
+    have hidd : (w.order! o0.id).id = o0.id := order!_id w o0.id h0
+    unfold matchStep
+    simp only
+    split
+    · rfl
+    · rw [hidd]
+      have hm := order!_modify_self w o0.id (fun x => { x with sim := ((w.order! o0.id).sim.call ((w.market! mid).book.getD {}).view
+        ((runnerOf ((w.market! mid).book.getD {}) (w.order! o0.id).sel (w.order! o0.id).hc).bind (·.sp))
+        (((lk.find? fun e => e.1 = (w.order! o0.id).sel ∧ e.2.1 = (w.order! o0.id).hc).map (·.2.2)).getD [])
+        (w.client! ((w.order! o0.id).client.getD 0)).minBspLiability).1 }) h0 (by intro x hx; exact hx)
+      split
+      · rw [C03.executionComplete_self _ o0.id (hasOrder_modify w o0.id o0.id _ h0 (by intro x hx; exact hx)), hm]; rfl
+      · rw [hm]
+  · rw [(matchStep_frame mid recheck w lk o0 h0).1 id e]
+
+
+theorem fold_strategy (mid : Nat) (recheck : Bool) (l : List Order) (w : World) (lk : List (Nat × Rat × List (Rat × Rat)))
+    (hl : ∀ o ∈ l, HasOrder w o.id) (id : Nat) (hid : HasOrder w id) :
+    ((l.foldl (matchStep mid recheck) (w, lk)).1.order! id).strategy = (w.order! id).strategy := by
+  induction l generalizing w lk with
+  | nil => rfl
+  | cons o os ih =>
+    rw [List.foldl_cons]
+    have h0 := hl o List.mem_cons_self
+    obtain ⟨_, f2, _, _⟩ := matchStep_frame mid recheck w lk o h0
+    have e1 : matchStep mid recheck (w, lk) o = ((matchStep mid recheck (w, lk) o).1, (matchStep mid recheck (w, lk) o).2) := rfl
+    rw [e1, ih _ _ (fun x hx => f2 x.id (hl x (List.mem_cons_of_mem _ hx))) (f2 id hid)]
+    exact matchStep_strategy mid recheck w lk o h0 id hid
+
+theorem matchOrders_strategy (w : World) (mid : Nat) (l : List Order) (recheck : Bool) (hl : ∀ o ∈ l, HasOrder w o.id)
+    (id : Nat) (hid : HasOrder w id) : ((w.matchOrders mid l recheck).order! id).strategy = (w.order! id).strategy := by
+  unfold matchOrders; exact fold_strategy mid recheck l w _ hl id hid
+
+/-- C13 (registration order): in the isolated matching loop the orders of strategy A come out the same
+    whether another strategy B was matched before them or not -/
+theorem registration_order_irrelevant (w : World) (mid A B : Nat) (hAB : A ≠ B)
+    (hb : ∀ oid ∈ (w.market! mid).blotter, HasOrder w oid) :
+    ∀ oid ∈ (w.market! mid).blotter, (w.order! oid).strategy = A →
+      (matchStrategy mid (matchStrategy mid w B) A).order! oid = (matchStrategy mid w A).order! oid := by
+  -- the orders of A
+  let S : Nat → Prop := fun id => id ∈ (w.market! mid).blotter ∧ (w.order! id).strategy = A
+  have hasS : ∀ id, S id → HasOrder w id := fun id h => hb id h.1
+  -- B's live orders, sorted: present, and none of them is an order of A
+  have hLB : ∀ x ∈ sortOrders (w.strategyLive mid B), HasOrder w x.id ∧ ¬ S x.id := by
+    intro x hx
+    obtain ⟨oid, ho, rfl, hs⟩ := strategyLive_spec w mid B x (mem_sortOrders _ x hx)
+    have hid := order!_id w oid (hb oid ho)
+    rw [hid]
+    exact ⟨hb oid ho, fun hS => hAB (hS.2.symm.trans hs)⟩
+  -- the world after B was matched agrees with w on A's orders
+  generalize hw' : matchStrategy mid w B = w'
+  have hfacts : w'.markets = w.markets ∧ (∀ id, S id → w'.order! id = w.order! id) ∧ (∀ id, HasOrder w id → HasOrder w' id) ∧
+      w'.clients = w.clients ∧ w'.clock = w.clock ∧ (∀ id, HasOrder w id → (w'.order! id).strategy = (w.order! id).strategy) := by
+    rw [← hw']
+    unfold matchStrategy
+    simp only
+    split
+    · exact ⟨rfl, fun _ _ => rfl, fun _ h => h, rfl, rfl, fun _ _ => rfl⟩
+    · obtain ⟨g1, g2, g3, g4⟩ := fold_frame mid false (sortOrders (w.strategyLive mid B)) w
+        ((w.market! mid).analytics.map fun a => (a.sel, a.hc, a.traded)) (fun x hx => (hLB x hx).1)
+      refine ⟨matchOrders_keeps_markets w mid _ false, ?_, g2, g3, g4, ?_⟩
+      · intro id hs
+        exact g1 id (fun o ho e => (hLB o ho).2 (e ▸ hs))
+      · intro id hid
+        exact matchOrders_strategy w mid _ false (fun x hx => (hLB x hx).1) id hid
+  obtain ⟨hm, hord, hhas, hcl, hck, hstr⟩ := hfacts
+  have hag : Agree S w' w := ⟨hord, fun id h => hhas id (hasS id h), hasS, hm, hcl, hck⟩
+  -- A's live list is the same in both worlds
+  have hlive : w'.strategyLive mid A = w.strategyLive mid A := by
+    unfold strategyLive
+    rw [market!_congr w' w hm mid]
+    have : ∀ (l : List Nat), (∀ oid ∈ l, oid ∈ (w.market! mid).blotter) →
+        (l.map w'.order!).filter (fun o => o.strategy = A ∧ isMwLive o) = (l.map w.order!).filter (fun o => o.strategy = A ∧ isMwLive o) := by
+      intro l
+      induction l with
+      | nil => intro _; rfl
+      | cons oid os ih =>
+        intro hl
+        have hin := hl oid List.mem_cons_self
+        have iht := ih (fun x hx => hl x (List.mem_cons_of_mem _ hx))
+        simp only [List.map_cons, List.filter_cons]
+        by_cases hs : (w.order! oid).strategy = A
+        · rw [hord oid ⟨hin, hs⟩, iht]
+        · have hs' : (w'.order! oid).strategy ≠ A := by rw [hstr oid (hb oid hin)]; exact hs
+          simp only [hs, hs', false_and, decide_false, Bool.false_eq_true, if_false]
+          exact iht
+    exact this _ (fun _ h => h)
+  intro oid hin hsA
+  have hSoid : S oid := ⟨hin, hsA⟩
+  unfold matchStrategy
+  simp only
+  rw [hlive]
+  by_cases he : (w.strategyLive mid A).isEmpty = true
+  · rw [if_pos he, if_pos he]; exact hord oid hSoid
+  · rw [if_neg he, if_neg he]
+    have hLA : ∀ o ∈ sortOrders (w.strategyLive mid A), S o.id := by
+      intro x hx
+      obtain ⟨oid', ho', rfl, hs'⟩ := strategyLive_spec w mid A x (mem_sortOrders _ x hx)
+      have hid := order!_id w oid' (hb oid' ho')
+      rw [hid]; exact ⟨ho', hs'⟩
+    exact (matchOrders_agree S mid false _ hLA w' w hag).orders oid hSoid
 
 /-! ### non-vacuity -/
 
